@@ -59,7 +59,7 @@ def main():
         out["checks"] = {}
         for p in props:
             r = sh("VERIF_REPO=%s %s harness/vcheck.py %s --tier %s" % (wt, PY, p, tier), cwd=VERIF)
-            lines = [l for l in r.stdout.splitlines() if l.startswith(("VIOLATION", "KNOWN-FINDING"))]
+            lines = [l[:160] for l in r.stdout.splitlines() if l.startswith("VIOLATION")]
             out["checks"][p] = {"rc": r.returncode, "lines": lines[:6],
                                 "tail": r.stdout.splitlines()[-3:] if r.returncode not in (0, 1) else []}
     finally:
